@@ -165,6 +165,10 @@ fn emit(kind: &'static str, a: u64, b: u64) {
 fn count(kind: &str) -> usize {
     servlin::verif::snapshot().iter().filter(|r| r.kind == kind).count()
 }
+/// The accept loop is parked in `accept()` (it holds a token and waits for a connection).
+fn accept_loop_accepting() -> bool {
+    servlin::verif::snapshot().iter().rev().find(|r| r.kind.starts_with("Acc")).map_or(false, |r| r.kind == "AccAccepting")
+}
 fn wait_until(deadline_s: u64, f: impl Fn() -> bool) -> bool {
     let deadline = Instant::now() + Duration::from_secs(deadline_s);
     while !f() {
@@ -185,7 +189,13 @@ struct Client {
 
 pub fn run_stress(args: &Args, mut out: Out) {
     let runs = args.u64("runs", 60);
+    let emfile_pct = args.u64("emfile", 0);
     let mut r = args.rng();
+    if emfile_pct > 0 {
+        // a small descriptor limit makes "too many open files" cheap to provoke (this process only)
+        let lim = libc::rlimit { rlim_cur: 400, rlim_max: 400 };
+        unsafe { libc::setrlimit(libc::RLIMIT_NOFILE, &lim) };
+    }
     safina::timer::start_timer_thread();
     let executor = safina::executor::Executor::new(2, 16).unwrap();
     for sid in 1..=runs {
@@ -237,7 +247,36 @@ pub fn run_stress(args: &Args, mut out: Out) {
             }
         };
         let nsteps = r.gen_range(4..30);
-        for _ in 0..nsteps {
+        let emfile_at = if r.gen_range(0..100) < emfile_pct { r.gen_range(0..nsteps) } else { usize::MAX };
+        for step in 0..nsteps {
+            if step == emfile_at {
+                // ---- C12: failures to accept a connection never consume a slot ----
+                // exhaust the descriptor table, leave room for exactly one client socket, connect: accept() fails (EMFILE)
+                // (only meaningful while the loop is parked in accept(); with every slot in use it waits for a token instead)
+                std::thread::sleep(Duration::from_millis(2));
+                if let Some(c) = (0..nclients).find(|&c| clients[c].sock.is_none()).filter(|_| accept_loop_accepting()) {
+                    let errs_before = count("AccAcceptErr");
+                    let acc_before = count("AccAccepted");
+                    emit("FdExhaustBegin", 0, 0);
+                    let mut dummies = vec![];
+                    while let Ok(f) = std::fs::File::open("/dev/null") {
+                        dummies.push(f);
+                        if dummies.len() > 2000 {
+                            break;
+                        }
+                    }
+                    dummies.pop();
+                    connect(&mut clients, c);
+                    let saw_err = clients[c].sock.is_some() && wait_until(3, || count("AccAcceptErr") > errs_before || count("AccAccepted") > acc_before);
+                    drop(dummies);
+                    emit("FdExhaustEnd", u64::from(saw_err), 0);
+                    if clients[c].sock.is_some() {
+                        // the connection is still in the backlog: once descriptors are free again it is accepted
+                        wait_until(3, || count("AccAccepted") > acc_before || count("AccRevokedExit") + count("AccRevokedInWait") > 0);
+                    }
+                }
+                continue;
+            }
             let c = r.gen_range(0..nclients);
             match r.gen_range(0..10) {
                 0..=2 if clients[c].sock.is_none() => connect(&mut clients, c),
@@ -284,6 +323,13 @@ pub fn run_stress(args: &Args, mut out: Out) {
                 }
             }
             wait_until(10, || count("ConnEnd") >= count("ConnBegin") && count("ConnBegin") >= count("AccAccepted"));
+            // a connection whose client gave up while it was still in the listen backlog is accepted (and ended) as
+            // soon as a slot is free: wait for every connection that was ever established, so that none of them
+            // turns up in the middle of the measurement
+            wait_until(10, || {
+                let recs = servlin::verif::snapshot();
+                recs.iter().filter(|r| r.kind == "ClientConnected").all(|c| recs.iter().any(|e| e.kind == "ConnEnd" && e.a == c.b))
+            });
             *gates.all.lock().unwrap() = false;
             let before = count("HEnter");
             let mut refill_socks = vec![];
